@@ -159,6 +159,16 @@ func (rs *runState) call(op string, step, conn int, fn func(c *callRec) error) *
 	return c
 }
 
+// sleep pauses the calling goroutine for at least d and wakes it at an instant
+// no environment event uses (core.Sim hands out unique instants): two timers
+// firing at the same simulated nanosecond would be ordered by the runtime, not
+// by the plan.
+func (rs *runState) sleep(d time.Duration) {
+	now := rs.sim.Now()
+	at := rs.sim.Reserve(now + d)
+	time.Sleep(at - now)
+}
+
 func usDur(us int) time.Duration {
 	if us < 0 {
 		us = 0
@@ -175,9 +185,7 @@ func (rs *runState) client(open func() (*ardop.TNC, error)) {
 	var cur *connRec
 	var ln net.Listener
 	for i, st := range rs.plan.Steps {
-		if d := usDur(st.DelayUs); d > 0 {
-			time.Sleep(d)
-		}
+		rs.sleep(usDur(st.DelayUs))
 		if rs.tearingDown() {
 			return
 		}
@@ -394,9 +402,7 @@ func (rs *runState) reader(cr *connRec) {
 		cr.ReadEnd = rs.sim.Now()
 	}()
 	rp := rs.plan.Reader
-	if d := usDur(rp.StartDelayUs); d > 0 {
-		time.Sleep(d)
-	}
+	rs.sleep(usDur(rp.StartDelayUs))
 	for i := 0; ; i++ {
 		sz := core.TapeAt(rp.Bufs, i, 65536)
 		if sz < 1 {
@@ -426,7 +432,7 @@ func (rs *runState) reader(cr *connRec) {
 		}
 		rs.sim.Logf("reader conn %d read %d/%d total %d", cr.Idx, n, sz, len(cr.Got))
 		if d := usDur(core.TapeAt(rp.ThinkUs, i, 0)); d > 0 {
-			time.Sleep(d)
+			rs.sleep(d)
 		}
 		if i > 1<<20 {
 			return
